@@ -143,6 +143,21 @@ type tracer struct {
 	slotsSeen map[common.AddressBytes]map[common.Hash]bool
 	counts    map[string]int
 	created   []common.Address
+	memPrev   [1030]memStep // C15: per depth, the memory size and charged cost seen at the previous step of that frame
+}
+
+type memStep struct {
+	valid bool
+	len   int
+	gas   uint64 // gas available before the step
+	op    vm.OpCode
+	grew  uint64 // memory-expansion price of the growth this step caused
+}
+
+// memoryGas is the protocol's price of a memory of n bytes (3 gas per word plus words^2/512).
+func memoryGas(n int) uint64 {
+	w := uint64((n + 31) / 32)
+	return 3*w + w*w/512
 }
 
 func newTracer(w *world, rg *regime, st *state.StateDB, batch ethdb.Batch, txHash common.Hash) *tracer {
@@ -313,6 +328,36 @@ func (t *tracer) CaptureState(env *vm.EVM, pc uint64, op vm.OpCode, gas, cost ui
 		t.resolve(p, scope, popped)
 	} else if popped != nil {
 		panic("evmsim: frame returned into a frame without a pending call operation")
+	}
+	if t.prop == "C15" {
+		// Interpreter memory may only grow through a step that is charged at least the memory-expansion price of that growth.
+		// The interpreter resizes memory for an operation before it reports the step, so the growth caused by step i is visible at
+		// step i; what step i was charged in total (static + dynamic + any gas it forwards) is known at the next step of the frame.
+		cur := scope.Memory.Len()
+		p := &t.memPrev[depth]
+		if p.valid {
+			if p.grew > 0 && gas <= p.gas {
+				charged := p.gas - gas
+				if charged < p.grew {
+					t.violate("C15", "mem-charged", "op="+p.op.String(), "step %s at depth %d grew the frame's memory to %d bytes (expansion price %d gas) but was charged %d gas in total", p.op, depth, p.len, p.grew, charged)
+				}
+				simkit.Global.Inc("probe.memory_growth_checked")
+			}
+			grew := uint64(0)
+			if cur > p.len {
+				grew = memoryGas(cur) - memoryGas(p.len)
+				simkit.Global.Seen("memgrow_op", op.String())
+				if grew > 10000 {
+					simkit.Global.Inc("probe.large_memory_expansion")
+				}
+			}
+			*p = memStep{valid: true, len: cur, gas: gas, op: op, grew: grew}
+		} else {
+			*p = memStep{valid: true, len: cur, gas: gas, op: op, grew: memoryGas(cur)}
+		}
+		for d := depth + 1; d < len(t.memPrev) && t.memPrev[d].valid; d++ {
+			t.memPrev[d].valid = false // deeper frames have ended
+		}
 	}
 	f := t.frames[depth-1]
 	idx := len(t.steps)
